@@ -325,6 +325,12 @@ def main(tier):
     pairs = [(2, 3)] if tier == 'quick' else [(2, 3), (3, 4), (6, 5)]
     kinds = c08.KINDS
     items = [(k0, k1, dA, dB, tier, chk.seed) for (dA, dB) in pairs for k0 in kinds for k1 in kinds]
+    # a pair of dimensions of equal parity (a block of the smaller one passes the alignment test of the larger one's cache): the pre-states
+    # in which the resized target owns its block
+    same_parity = [(2, 4)] if tier == 'quick' else [(2, 4), (3, 5)]
+    own_kinds = [k for k in kinds if 'own' in k]
+    items += [(k0, k1, dA, dB, tier, chk.seed) for (dA, dB) in same_parity for k0 in own_kinds for k1 in kinds if k1 != 'empty']
+    pairs = pairs + same_parity
     chk.cov['bounds'] = {'pool': '4 slots + scratch; pre-states: two operands in {empty, self-owned, external} x two dimensions, self-owned observer', 'dimensions': pairs,
                          'cache': 'initially empty; CHURN operations fill the 32-entry per-dimension cache beyond capacity before further operations', 'histories': 'every catalogue operation (%d, valid and throwing) as a 1-step history from every pre-state; seeded samples of 2- and 3-step histories starting with a (possibly throwing) operation' % len(catalogue(2, 3)),
                          'solver objects': 'construct / ini / re-ini / move-construct / move-assign / const queries (interpolating expectation value with the internal scratch, intermediate state) / destroy, 3 configurations, histories of up to 7 operations; Evolve excluded (GSL driver has no IR)'}
